@@ -116,3 +116,95 @@ def check_params(ctx, repo: Repo, pid: str, module_names: List[str], report_modu
     if bad == 0:
         ctx.ok("PARAM", f"{pid}.param", "no function of the analysed modules ignores the values of an argument that a call site computes "
                "(positive control matched)", ", ".join(module_names)[:160])
+
+
+# ---------------------------------------------------------------------------------------------------------------------
+DK_CONTROL = '''
+def geo(sel_property="adjacency"):
+    table = {"border_len": 1, "center_distance": 2}
+    if sel_property in table.keys():
+        return table[sel_property]
+    if sel_property == "adjacency":
+        return 0
+def user():
+    return geo(sel_property="center_distances"), geo(sel_property="border_len")
+'''
+
+
+def _dispatch_keys(trees):
+    """-> (handled {param: {(literal, where)}}, passed {param: {literal}})"""
+    import collections
+    handled = collections.defaultdict(set)
+    passed = collections.defaultdict(set)
+    for rel, t in trees:
+        for fn in [n for n in ast.walk(t) if isinstance(n, (ast.FunctionDef, ast.AsyncFunctionDef))]:
+            params = {a.arg for a in fn.args.posonlyargs + fn.args.args + fn.args.kwonlyargs}
+            pos = fn.args.posonlyargs + fn.args.args
+            for a, d in zip(pos[len(pos) - len(fn.args.defaults):], fn.args.defaults):
+                if isinstance(d, ast.Constant) and isinstance(d.value, str):
+                    passed[a.arg].add(d.value)
+            for a, d in zip(fn.args.kwonlyargs, fn.args.kw_defaults):
+                if isinstance(d, ast.Constant) and isinstance(d.value, str):
+                    passed[a.arg].add(d.value)
+            local_dicts = {}
+            for a2 in ast.walk(fn):
+                if isinstance(a2, ast.Assign) and len(a2.targets) == 1 and isinstance(a2.targets[0], ast.Name) and isinstance(a2.value, ast.Dict):
+                    local_dicts[a2.targets[0].id] = a2.value
+            for n in ast.walk(fn):
+                if isinstance(n, ast.Compare) and isinstance(n.left, ast.Name) and n.left.id in params:
+                    for op, c in zip(n.ops, n.comparators):
+                        lits = []
+                        if isinstance(op, (ast.Eq, ast.NotEq)) and isinstance(c, ast.Constant) and isinstance(c.value, str):
+                            lits = [c.value]
+                        elif isinstance(op, (ast.In, ast.NotIn)):
+                            cc = c
+                            if isinstance(cc, ast.Call) and isinstance(cc.func, ast.Attribute) and cc.func.attr == "keys":
+                                cc = cc.func.value
+                            if isinstance(cc, ast.Name) and cc.id in local_dicts:
+                                cc = local_dicts[cc.id]
+                            if isinstance(cc, ast.Dict):
+                                lits = [k.value for k in cc.keys if isinstance(k, ast.Constant) and isinstance(k.value, str)]
+                            elif isinstance(cc, (ast.List, ast.Tuple, ast.Set)):
+                                lits = [k.value for k in cc.elts if isinstance(k, ast.Constant) and isinstance(k.value, str)]
+                        for l in lits:
+                            handled[n.left.id].add((l, f"{rel}:{fn.name}", rel))
+                if isinstance(n, ast.Match) and isinstance(n.subject, ast.Name) and n.subject.id in params:
+                    for case in n.cases:
+                        for v in ast.walk(case.pattern):
+                            if isinstance(v, ast.MatchValue) and isinstance(v.value, ast.Constant) and isinstance(v.value.value, str):
+                                handled[n.subject.id].add((v.value.value, f"{rel}:{fn.name}", rel))
+        for c in [n for n in ast.walk(t) if isinstance(n, ast.Call)]:
+            for kw in c.keywords:
+                if kw.arg and isinstance(kw.value, ast.Constant) and isinstance(kw.value.value, str):
+                    passed[kw.arg].add(kw.value.value)
+    return handled, passed
+
+
+def check_dispatch_keys(ctx, repo: Repo, pid: str, module_names: List[str], report_modules=None):
+    """DISPATCHKEY: a string key that a function handles for a selector parameter but that no call site (and no default) in the
+    package ever passes is dead — in a table that silently falls through on a miss this is a mistyped key: the selected
+    quantity is served by the fallback branch instead."""
+    h, p = _dispatch_keys([("<control>", ast.parse(DK_CONTROL))])
+    if {l for l, _, _ in h["sel_property"]} - p["sel_property"] != {"center_distance"}:
+        ctx.inconclusive("DISPATCHKEY", f"{pid}.dispatchkey.control", "positive control of the dispatch-key rule did not match", "<control>")
+        return
+    trees = [(repo.module(mn).relpath, repo.module(mn).tree) for mn in module_names]
+    handled, passed = _dispatch_keys(trees)
+    rep = {repo.module(m).relpath for m in (report_modules or module_names) if m in repo.modules}
+    n = 0
+    bad = 0
+    for param, hs in sorted(handled.items()):
+        if not passed.get(param):
+            continue        # vocabulary unknown (keys arrive dynamically / positionally)
+        for lit, where, rel in sorted(hs):
+            n += 1
+            if lit in passed[param] or rel not in rep:
+                continue
+            bad += 1
+            ctx.violate("DISPATCHKEY", f"{pid}.dispatchkey", f"the key {lit!r} handled for `{param}` is never passed by any caller: callers "
+                        f"use {sorted(passed[param])}; a request with the callers' spelling misses this branch and is served by the fallback",
+                        where, f"{param} == {lit!r}", witness=f"handled {sorted(l for l, _, _ in hs)}; passed {sorted(passed[param])}")
+    ctx.instance("DISPATCHKEY", n + 1)
+    if bad == 0:
+        ctx.ok("DISPATCHKEY", f"{pid}.dispatchkey", f"every string key handled for a selector parameter ({n} key/function pairs) is one that "
+               "callers actually pass (positive control matched)", ", ".join(module_names)[:160])
